@@ -1,4 +1,5 @@
 """C01 - validation verdicts match JSON Schema Draft 6 (E1 differential vs ref6, E2 multipleOf kernel)."""
+import itertools
 from typing import List
 
 from vf.harness import H, mk
@@ -12,6 +13,7 @@ ASSUMPTIONS = [
     "ref6 (vf/ref6.py) is the Draft-6 reading, with statham's documented deviations",
     "patterns restricted to a pool with identical meaning in Python re and ECMA-262",
     "float values/parameters only through the E2 multipleOf kernel and concrete dyadic constants",
+    "object-typed schemas carry a title (statham's parser requires title/_x_autotitle, which `main` adds automatically)",
 ]
 FUNCTIONS = [
     "statham.schema.parser:parse_element", "statham.schema.elements.base:Element.__call__",
@@ -22,44 +24,283 @@ FUNCTIONS = [
 
 SCALAR = "Union[int, bool, str, None]"
 SCALAR_PRE = ["not isinstance(v, str) or len(v) <= 3"]
+POOL = ("a", "b", "a b", "class", "ab")
+DPRE = ["len(v) <= 2", "all(k in ('a', 'b', 'a b', 'class', 'ab') for k in v)"]
 
 
-def _triple(name, args, pre, schema, tier="quick", timeout=40, group="", covers="", expect="confirmed", twins=True, setup="") -> List[H]:
+def _triple(name, args, pre, schema, tier="quick", timeout=40, group="", covers="", expect="confirmed",
+            twins=True, setup="", waive=True, twin_tier=None) -> List[H]:
     """claim + two reachability twins for `accepts(parse(S), v) == ref6(S, v)`."""
+    w = "" if waive else ", False"
     body = f"""
 {setup}
 S = {schema}
-return accepts(parse_s(S), v) == oracle(S, v)
+return accepts(parse_s(S), v) == oracle(S, v{w})
 """
     out = [mk(name, args, pre, body, tier=tier, timeout=timeout, group=group, covers=covers or schema, expect=expect)]
     if twins:
         acc = f"""
 {setup}
 S = {schema}
-return not (accepts(parse_s(S), v) and oracle(S, v))
+return not (accepts(parse_s(S), v) and oracle(S, v{w}))
 """
         rej = f"""
 {setup}
 S = {schema}
-return not ((not accepts(parse_s(S), v)) and (not oracle(S, v)))
+return not ((not accepts(parse_s(S), v)) and (not oracle(S, v{w})))
 """
-        out.append(mk(name + "__acc", args, pre, acc, tier=tier, timeout=min(timeout, 30), kind="witness", group=group, covers="reachability twin: some value accepted"))
-        out.append(mk(name + "__rej", args, pre, rej, tier=tier, timeout=min(timeout, 30), kind="witness", group=group, covers="reachability twin: some value rejected"))
+        tt = twin_tier or tier
+        out.append(mk(name + "__acc", args, pre, acc, tier=tt, timeout=min(timeout, 30), kind="witness", group=group, covers="reachability twin: some value accepted"))
+        out.append(mk(name + "__rej", args, pre, rej, tier=tt, timeout=min(timeout, 30), kind="witness", group=group, covers="reachability twin: some value rejected"))
     return out
+
+
+LEAVES = {
+    "T": "True",
+    "F": "False",
+    "min": '{"minimum": m}',
+    "int": '{"type": "integer"}',
+    "str": '{"type": "string"}',
+    "req": '{"required": ["a"]}',
+    "maxlen": '{"maxLength": n}',
+}
+COMPV = "Union[int, bool, str, None, Dict[str, int]]"
+COMPV_PRE = [
+    "not isinstance(v, str) or len(v) <= 3",
+    "not isinstance(v, dict) or (len(v) <= 1 and all(k in ('a', 'b') for k in v))",
+    "n >= 0",
+]
 
 
 def harnesses(ctx) -> List[H]:
     hs: List[H] = []
-    # ---------------- num family
+    Q, T = "quick", "thorough"
+
+    # ------------------------------------------------------------ num family
     for kw in ("minimum", "maximum", "exclusiveMinimum", "exclusiveMaximum"):
         for typ in (None, "integer", "number"):
             t = "" if typ is None else f'"type": "{typ}", '
-            hs += _triple(
-                f"c01_num_{kw}_{typ or 'any'}",
-                f"m: int, v: {SCALAR}",
-                SCALAR_PRE,
-                f'{{{t}"{kw}": m}}',
-                group="num",
-                tier="quick" if typ != "number" else "thorough",
-            )
+            hs += _triple(f"c01_num_{kw}_{typ or 'any'}", f"m: int, v: {SCALAR}", SCALAR_PRE,
+                          f'{{{t}"{kw}": m}}', group="num", tier=Q if typ != "number" else T,
+                          twin_tier=Q if typ is None else T)
+    for typ in (None, "integer"):
+        t = "" if typ is None else f'"type": "{typ}", '
+        hs += _triple(f"c01_num_multipleOf_{typ or 'any'}", f"m: int, v: {SCALAR}", SCALAR_PRE + ["m > 0"],
+                      f'{{{t}"multipleOf": m}}', group="num", timeout=60, twin_tier=Q if typ is None else T)
+    # dyadic float bounds with int values (float constant concrete)
+    for kw, c in (("minimum", "0.5"), ("exclusiveMaximum", "2.0"), ("maximum", "-1.25")):
+        hs += _triple(f"c01_num_{kw}_float", f"v: {SCALAR}", SCALAR_PRE, f'{{"type": "number", "{kw}": {c}}}', group="num", tier=T)
+    hs += _triple("c01_num_const", f"c: Union[int, bool, None], v: {SCALAR}", SCALAR_PRE, '{"const": c}', group="lit")
+    hs += _triple("c01_num_enum", f"c1: Union[int, bool], c2: Union[int, bool, None], v: {SCALAR}", SCALAR_PRE,
+                  '{"enum": [c1, c2]}', group="lit")
+    hs += _triple("c01_num_const_typed", f"c: Union[int, bool], v: {SCALAR}", SCALAR_PRE,
+                  '{"type": ["integer", "boolean"], "const": c}', group="lit", tier=T)
+    # symbolic presence flags for all five numeric keywords at once
+    hs += _triple(
+        "c01_num_flags", f"f1: bool, f2: bool, f3: bool, f4: bool, f5: bool, a: int, b: int, c: int, d: int, m: int, v: Union[int, bool]",
+        ["m > 0"],
+        "S0",
+        setup="""
+S0 = {"type": "integer"}
+if f1: S0["minimum"] = a
+if f2: S0["maximum"] = b
+if f3: S0["exclusiveMinimum"] = c
+if f4: S0["exclusiveMaximum"] = d
+if f5: S0["multipleOf"] = m
+""", group="num", tier=T, timeout=150, covers="integer schema with any subset of the five numeric keywords")
+    hs += _triple("c01_num_range", f"a: int, b: int, v: Union[int, bool, str]", SCALAR_PRE,
+                  '{"minimum": a, "exclusiveMaximum": b}', group="num")
+
+    # ------------------------------------------------------------ str family
+    SV = "Union[str, int, bool]"
+    SPRE = ["not isinstance(v, str) or len(v) <= 4"]
+    for kw in ("minLength", "maxLength"):
+        for typ in (None, "string"):
+            t = "" if typ is None else f'"type": "{typ}", '
+            hs += _triple(f"c01_str_{kw}_{typ or 'any'}", f"n: int, v: {SV}", SPRE + ["n >= 0"], f'{{{t}"{kw}": n}}',
+                          group="str", twin_tier=Q if typ is None else T)
+    PATS = {"caret_a": "^a", "b_dollar": "b$", "a_dot_c": "a.c", "digits": "[0-9]+", "empty": "^$"}
+    for pn, pat in PATS.items():
+        hs += _triple(f"c01_str_pattern_{pn}", f"v: {SV}", SPRE, f'{{"pattern": {pat!r}}}', group="str",
+                      tier=Q if pn in ("caret_a", "a_dot_c") else T, timeout=60)
+    hs += _triple("c01_str_len_pattern", f"n: int, k: int, v: {SV}", SPRE + ["n >= 0", "k >= 0"],
+                  '{"type": "string", "minLength": n, "maxLength": k, "pattern": "^a"}', group="str", tier=T, timeout=90)
+    hs += _triple("c01_str_const", f"c: str, v: {SV}", SPRE + ["len(c) <= 2"], '{"const": c}', group="lit")
+    hs += _triple("c01_str_enum", f"c: str, v: {SV}", SPRE + ["len(c) <= 2"], '{"type": "string", "enum": [c, "ab", 1]}', group="lit", tier=T)
+
+    # ------------------------------------------------------------ arr family
+    LV = "Union[List[Union[int, bool]], int, None]"
+    LPRE = ["not isinstance(v, list) or len(v) <= 3"]
+    hs += _triple("c01_arr_items_single", f"m: int, v: {LV}", LPRE, '{"items": {"minimum": m}}', group="arr")
+    hs += _triple("c01_arr_items_single_typed", f"m: int, v: {LV}", LPRE, '{"type": "array", "items": {"type": "integer", "maximum": m}}', group="arr")
+    for an, addl in (("absent", None), ("true", "True"), ("false", "False"), ("schema", '{"maximum": m}')):
+        a = "" if addl is None else f', "additionalItems": {addl}'
+        hs += _triple(f"c01_arr_tuple_addl_{an}", f"m: int, v: {LV}", LPRE,
+                      f'{{"items": [{{"type": "integer"}}, {{"type": "boolean"}}]{a}}}', group="arr",
+                      tier=Q if an in ("false", "schema") else T)
+        hs += _triple(f"c01_arr_typed_tuple_addl_{an}", f"m: int, v: {LV}", LPRE,
+                      f'{{"type": "array", "items": [{{"minimum": m}}]{a}}}', group="arr", tier=T)
+    # additionalItems must be ignored when items is not a tuple
+    hs += _triple("c01_arr_addl_without_tuple", f"m: int, v: {LV}", LPRE, '{"items": {"type": "integer"}, "additionalItems": False}', group="arr")
+    hs += _triple("c01_arr_addl_no_items", f"v: {LV}", LPRE, '{"additionalItems": False}', group="arr", tier=T)
+    hs += _triple("c01_arr_minmax", f"a: int, b: int, v: {LV}", LPRE + ["a >= 0", "b >= 0"], '{"minItems": a, "maxItems": b}', group="arr")
+    hs += _triple("c01_arr_minmax_typed", f"a: int, b: int, v: {LV}", LPRE + ["a >= 0", "b >= 0"],
+                  '{"type": "array", "minItems": a, "maxItems": b}', group="arr", tier=T)
+    hs += _triple("c01_arr_unique", f"u: bool, v: {LV}", LPRE, '{"uniqueItems": u}', group="arr")
+    hs += _triple("c01_arr_contains", f"m: int, v: {LV}", LPRE, '{"contains": {"minimum": m}}', group="arr")
+    hs += _triple("c01_arr_contains_false", f"v: {LV}", LPRE, '{"contains": False}', group="arr", tier=T)
+    hs += _triple("c01_arr_contains_true", f"v: {LV}", LPRE, '{"type": "array", "contains": True}', group="arr", tier=T)
+    hs += _triple("c01_arr_strs", "n: int, v: List[str]", ["len(v) <= 2", "all(len(s) <= 2 for s in v)", "n >= 0"],
+                  '{"type": "array", "items": {"type": "string", "maxLength": n}, "uniqueItems": True}', group="arr", tier=T, timeout=90)
+    NV = "List[List[Union[int, bool]]]"
+    NPRE = ["len(v) <= 2", "all(len(x) <= 2 for x in v)"]
+    hs += _triple("c01_arr_nested_unique", f"v: {NV}", NPRE, '{"uniqueItems": True}', group="lit", timeout=60)
+    hs += _triple("c01_arr_nested_items", f"m: int, v: {NV}", NPRE,
+                  '{"items": {"type": "array", "items": {"type": "integer", "minimum": m}, "maxItems": 1}}', group="arr", tier=T, timeout=60)
+    hs += _triple("c01_lit_const_list", f"c: Union[int, bool], v: Union[List[Union[int, bool]], int]", LPRE, '{"const": [c]}', group="lit")
+    hs += _triple("c01_lit_enum_list", f"c: Union[int, bool], d: Union[int, bool], v: Union[List[Union[int, bool]], int, bool]", LPRE,
+                  '{"enum": [[c], d, [d, 0]]}', group="lit", tier=T)
+    hs += _triple("c01_lit_const_nested", f"c: Union[int, bool], v: {NV}", NPRE, '{"const": [[c], []]}', group="lit", tier=T)
+    hs += _triple("c01_lit_const_dict", "c: Union[int, bool], v: Dict[str, Union[int, bool]]", ["len(v) <= 2", "all(k in ('a', 'b') for k in v)"],
+                  '{"const": {"a": c}}', group="lit", tier=T, timeout=60)
+
+    # ------------------------------------------------------------ obj family
+    DV = "Dict[str, int]"
+    for typed in (False, True):
+        tn = "typed" if typed else "any"
+        t = '"type": "object", "title": "T", ' if typed else ""
+        tier2 = T if typed else Q
+        hs += _triple(f"c01_obj_props_{tn}", f"mn: int, v: {DV}", DPRE,
+                      f'{{{t}"properties": {{"a": {{"minimum": mn}}, "a b": {{"maximum": mn}}, "class": {{"multipleOf": 2}}}}}}', group="obj", timeout=60)
+        for rq in ('["a"]', '["a", "b"]', '["a b", "class"]'):
+            rn = rq.replace('"', "").replace("[", "").replace("]", "").replace(", ", "_").replace(" ", "")
+            # typed object + required name with no declared property + additionalProperties closed/schema = known finding
+            for an, addl in (("absent", None), ("false", "False"), ("schema", '{"minimum": k}')):
+                a = "" if addl is None else f', "additionalProperties": {addl}'
+                excl = []
+                if typed and an != "absent":
+                    undeclared = [x for x in eval(rq) if x not in ("a", "a b")]
+                    if undeclared:
+                        excl = ctx.excl("C01-required-synthetic", "not any(x in v for x in %r)" % (tuple(undeclared),))
+                hs += _triple(f"c01_obj_req_{rn}_addl_{an}_{tn}", f"mn: int, k: int, v: {DV}", DPRE + excl,
+                              f'{{{t}"properties": {{"a": {{"minimum": mn}}, "a b": True}}, "required": {rq}{a}}}',
+                              group="obj", timeout=60, tier=tier2 if rq != '["a"]' else Q, twin_tier=T)
+        hs += _triple(f"c01_obj_pattern_{tn}", f"mn: int, n: int, k: int, v: {DV}", DPRE,
+                      f'{{{t}"properties": {{"a": {{"minimum": mn}}}}, "patternProperties": {{"^a": {{"maximum": n}}, "b$": {{"multipleOf": 2}}}}, "additionalProperties": {{"minimum": k}}}}',
+                      group="obj", timeout=90)
+        hs += _triple(f"c01_obj_pattern_closed_{tn}", f"n: int, v: {DV}", DPRE,
+                      f'{{{t}"patternProperties": {{"^a": {{"maximum": n}}}}, "additionalProperties": False}}', group="obj", timeout=60, tier=tier2)
+        hs += _triple(f"c01_obj_minmax_{tn}", f"a: int, b: int, v: {DV}", DPRE + ["a >= 0", "b >= 0"],
+                      f'{{{t}"minProperties": a, "maxProperties": b}}', group="obj", timeout=60, tier=tier2)
+        for pn, names in (("maxlen", '{"maxLength": n}'), ("pattern", '{"pattern": "^a"}'), ("false", "False")):
+            hs += _triple(f"c01_obj_names_{pn}_{tn}", f"n: int, v: {DV}", DPRE + ["n >= 0"], f'{{{t}"propertyNames": {names}}}',
+                          group="obj", timeout=60, tier=Q if (pn == "maxlen" and not typed) else T)
+        for dn, dep in (("list", '["b"]'), ("schema", '{"required": ["b"], "properties": {"b": {"minimum": mn}}}'), ("false", "False"), ("true", "True")):
+            hs += _triple(f"c01_obj_dep_{dn}_{tn}", f"mn: int, v: {DV}", DPRE, f'{{{t}"dependencies": {{"a": {dep}}}}}', group="obj",
+                          timeout=60, tier=Q if (dn in ("list", "schema") and not typed) else T)
+    # required property with a default may be omitted (documented deviation) - typed objects
+    hs += _triple("c01_obj_required_default_typed", f"mn: int, v: {DV}", DPRE,
+                  '{"type": "object", "title": "T", "properties": {"a": {"type": "integer", "minimum": mn, "default": 7}, "b": {"type": "integer"}}, "required": ["a", "b"]}',
+                  group="obj", timeout=60)
+    # non-dict values against object keywords; richer member types
+    hs += _triple("c01_obj_nondict", f"v: Union[int, str, None, List[int], Dict[str, int]]",
+                  ["not isinstance(v, str) or len(v) <= 2", "not isinstance(v, list) or len(v) <= 2", "not isinstance(v, dict) or (len(v) <= 1 and all(k in ('a', 'b') for k in v))"],
+                  '{"required": ["a"], "minProperties": 1, "properties": {"a": {"minimum": 0}}, "additionalProperties": False}', group="obj", timeout=60)
+    hs += _triple("c01_obj_typed_nondict", f"v: Union[int, str, None, List[int], Dict[str, int]]",
+                  ["not isinstance(v, str) or len(v) <= 2", "not isinstance(v, list) or len(v) <= 2", "not isinstance(v, dict) or (len(v) <= 1 and all(k in ('a', 'b') for k in v))"],
+                  '{"type": "object", "title": "T", "properties": {"a": {"minimum": 0}}}', group="obj", timeout=60, tier=T)
+    hs += _triple("c01_obj_mixed_members", f"mn: int, n: int, v: Dict[str, Union[int, str, bool]]",
+                  DPRE + ["all((not isinstance(x, str)) or len(x) <= 2 for x in v.values())", "n >= 0"],
+                  '{"properties": {"a": {"type": "integer", "minimum": mn}, "a b": {"type": "string", "maxLength": n}}, "patternProperties": {"b$": {"type": ["boolean", "string"]}}, "required": ["a"]}',
+                  group="obj", tier=T, timeout=240)
+    hs += _triple("c01_obj_nested", f"mn: int, v: Dict[str, Dict[str, int]]",
+                  ["len(v) <= 1", "all(k in ('a', 'b') for k in v)", "all(len(d) <= 1 and all(k in ('a', 'x') for k in d) for d in v.values())"],
+                  '{"properties": {"a": {"type": "object", "title": "Inner", "properties": {"x": {"minimum": mn}}, "required": ["x"], "additionalProperties": False}}}',
+                  group="obj", tier=T, timeout=120)
+
+    # ------------------------------------------------------------ comp family
+    def comp(name, schema, tier, timeout=40, twins=False):
+        return _triple(name, f"m: int, n: int, v: {COMPV}", COMPV_PRE, schema, group="comp", tier=tier, timeout=timeout, twins=twins)
+
+    quick_pairs = {("min", "int"), ("str", "maxlen"), ("req", "min"), ("T", "min"), ("F", "int"), ("int", "int")}
+    for kw in ("anyOf", "oneOf", "allOf"):
+        for l1, l2 in itertools.product(LEAVES, LEAVES):
+            tier = Q if (l1, l2) in quick_pairs else T
+            hs += comp(f"c01_comp_{kw}_{l1}_{l2}", f'{{"{kw}": [{LEAVES[l1]}, {LEAVES[l2]}]}}', tier, twins=(l1, l2) == ("min", "int"))
+        hs += comp(f"c01_comp_{kw}_single", f'{{"{kw}": [{LEAVES["min"]}]}}', T)
+        hs += comp(f"c01_comp_{kw}_three", f'{{"{kw}": [{LEAVES["min"]}, {LEAVES["int"]}, {LEAVES["maxlen"]}]}}', Q, timeout=60)
+    for l1 in LEAVES:
+        hs += comp(f"c01_comp_not_{l1}", f'{{"not": {LEAVES[l1]}}}', Q if l1 in ("min", "req", "F") else T, twins=l1 == "min")
+    # sibling keywords next to composition
+    sibs = {
+        "type": '"type": "integer"',
+        "min": '"minimum": n',
+        "props": '"properties": {"a": {"maximum": n}}',
+        "typelist": '"type": ["integer", "string"]',
+        "default": '"default": 3',
+        "const": '"const": n',
+    }
+    for kw in ("anyOf", "oneOf", "allOf", "not"):
+        for sn, sib in sibs.items():
+            inner = f'[{LEAVES["min"]}, {LEAVES["str"]}]' if kw != "not" else LEAVES["min"]
+            hs += comp(f"c01_comp_{kw}_sib_{sn}", f'{{{sib}, "{kw}": {inner}}}', Q if sn in ("type", "props") else T, timeout=60, twins=(sn == "type"))
+    # two composition keywords at once
+    kws = ("anyOf", "oneOf", "allOf", "not")
+    two_leaves = [("min", "int"), ("str", "maxlen"), ("req", "T"), ("int", "F")]
+    for k1, k2 in itertools.combinations(kws, 2):
+        for i, (l1, l2) in enumerate(two_leaves):
+            v1 = f"[{LEAVES[l1]}, {LEAVES[l2]}]" if k1 != "not" else LEAVES[l1]
+            v2 = f"[{LEAVES[l2]}, {LEAVES['min']}]" if k2 != "not" else LEAVES[l2]
+            hs += comp(f"c01_comp2_{k1}_{k2}_{i}", f'{{"{k1}": {v1}, "{k2}": {v2}}}', Q if i == 0 else T, timeout=60)
+    hs += comp("c01_comp_all_four", f'{{"type": ["integer", "string", "null"], "anyOf": [{LEAVES["min"]}, {LEAVES["str"]}], "oneOf": [{LEAVES["int"]}, {LEAVES["maxlen"]}], "allOf": [{{"maximum": n}}], "not": {{"const": 5}}}}', Q, timeout=90, twins=True)
+    # depth 2
+    for k1 in kws:
+        for k2 in kws:
+            inner = f'{{"{k2}": [{LEAVES["min"]}, {LEAVES["str"]}]}}' if k2 != "not" else f'{{"not": {LEAVES["min"]}}}'
+            outer = f'[{inner}, {LEAVES["maxlen"]}]' if k1 != "not" else inner
+            hs += comp(f"c01_comp_nest_{k1}_{k2}", f'{{"{k1}": {outer}}}', Q if (k1, k2) in (("not", "anyOf"), ("oneOf", "oneOf"), ("allOf", "not")) else T, timeout=60)
+    # composition over object branches / arrays
+    hs += _triple("c01_comp_obj_branches", f"mn: int, v: {DV}", DPRE,
+                  '{"oneOf": [{"type": "object", "title": "A", "properties": {"a": {"minimum": mn}}, "required": ["a"]}, {"type": "object", "title": "B", "required": ["b"]}]}',
+                  group="comp", timeout=90)
+    hs += _triple("c01_comp_in_items", f"m: int, v: Union[List[Union[int, bool]], int]", LPRE,
+                  '{"items": {"anyOf": [{"type": "boolean"}, {"minimum": m}]}}', group="comp", tier=T, timeout=60)
+
+    # ------------------------------------------------------------ types family
+    TYPES = ["null", "boolean", "integer", "number", "string", "array", "object"]
+    TV = "Union[int, bool, str, None, List[int], Dict[str, int]]"
+    TPRE = ["not isinstance(v, str) or len(v) <= 2", "not isinstance(v, list) or len(v) <= 2",
+            "not isinstance(v, dict) or (len(v) <= 1 and all(k in ('a', 'b') for k in v))", "n >= 0"]
+    qsel = {("integer",), ("number",), ("object",), ("integer", "string"), ("null", "boolean"), ("array", "object"), ("boolean", "number")}
+    for r in (1, 2):
+        for sub in itertools.combinations(TYPES, r):
+            nm = "_".join(sub)
+            hs += _triple(f"c01_types_{nm}", f"m: int, n: int, v: {TV}", TPRE,
+                          f'{{"type": {list(sub)!r}, "title": "T", "minimum": m, "maxLength": n, "maxItems": n, "maxProperties": n}}',
+                          group="types", tier=Q if sub in qsel else T, timeout=60, twins=sub in (("integer", "string"), ("object",)))
+    for t in TYPES:
+        hs += _triple(f"c01_type_single_{t}", f"v: {TV}", TPRE[:-1], f'{{"type": "{t}", "title": "T"}}', group="types", tier=T, twins=False)
+    hs += _triple("c01_types_three", f"m: int, n: int, v: {TV}", TPRE, '{"type": ["integer", "string", "null"], "minimum": m, "maxLength": n}', group="types", tier=T, timeout=60)
+    hs += _triple("c01_bool_schemas", f"b: bool, v: {TV}", TPRE[:-1], "b", group="types", twins=True)
     return hs
+
+
+# ---------------------------------------------------------------- known findings (concrete demos)
+def _demo_required_synthetic():
+    from vf.common import accepts, parse_s
+
+    S = {"type": "object", "title": "T", "required": ["a"], "additionalProperties": False}
+    return accepts(parse_s(S), {"a": 1})  # Draft 6: 'a' is an additional property -> invalid
+
+
+def _demo_nested_bool():
+    from vf.common import accepts, parse_s
+
+    return (
+        accepts(parse_s({"const": [True]}), [1])
+        or accepts(parse_s({"enum": [[0]]}), [False])
+        or not accepts(parse_s({"uniqueItems": True}), [[1], [True]])
+    )
+
+
+DEMOS = {"C01-required-synthetic": _demo_required_synthetic, "C01-nested-bool": _demo_nested_bool}
